@@ -665,7 +665,7 @@ namespace avel {
 
     [[nodiscard]]
     AVEL_FINL vec8x64f fdim(vec8x64f x, vec8x64f y) {
-        return avel::max(x - y, vec8x64f{0.0});
+        return blend(x <= y, vec8x64f{0.0}, x - y);
     }
 
     [[nodiscard]]
